@@ -63,7 +63,7 @@ Lemma dne_trace : forall its rest d acc p,
   | None => dne rest d (acc ++ map (fun b => (d, b)) (decls its)) p
   end.
 Proof.
-  induction its as [|bs r IHr|q r IHr|r IHr|b IHb r IHr|parts late b IHb r IHr|b IHb c r IHr];
+  induction its as [|bs r IHr|q r IHr|r IHr|b IHb r IHr|parts late it b IHb r IHr|b IHb c r IHr];
     intros rest d acc p Hacc; cbn [trace scope_at decls].
   - simpl. rewrite app_nil_r. reflexivity.
   - rewrite <- app_assoc. rewrite dne_decls. rewrite IHr by (apply tagged_le_same; exact Hacc).
@@ -76,12 +76,19 @@ Proof.
     rewrite filter_leave by exact Hacc. apply IHr. exact Hacc.
   - rewrite <- app_assoc. rewrite dne_pts.
     destruct (zmem p (for_points parts)); [reflexivity|].
-    simpl. rewrite <- !app_assoc. rewrite dne_decls.
-    rewrite IHb by (apply tagged_le; exact Hacc).
-    rewrite map_app, map_snd_tag.
+    cbn [app dne]. rewrite <- !app_assoc. rewrite dne_decls.
+    cbn [app dne]. rewrite <- !app_assoc. rewrite dne_decls.
+    assert (H1 : forall x, In x (acc ++ map (fun b0 => (d + 1, b0)) (for_hidden parts)) -> fst x <= d + 1)
+      by (apply tagged_le; exact Hacc).
+    rewrite IHb by (apply tagged_le; exact H1).
+    rewrite !map_app, !map_snd_tag. rewrite <- app_assoc.
     destruct (scope_at (map snd acc ++ for_hidden parts ++ late) b p) as [res|]; [reflexivity|].
-    simpl. replace (d + 1 - 1) with d by lia.
-    rewrite <- app_assoc, <- map_app. rewrite filter_leave by exact Hacc. apply IHr. exact Hacc.
+    cbn [app dne]. replace (d + 1 + 1 - 1) with (d + 1) by lia.
+    rewrite <- (app_assoc (acc ++ _)), <- map_app. rewrite filter_leave by exact H1.
+    cbn [orelse]. rewrite <- app_assoc. rewrite dne_pts. rewrite map_app, map_snd_tag.
+    destruct (zmem p it); [reflexivity|].
+    cbn [app dne]. replace (d + 1 - 1) with d by lia.
+    rewrite filter_leave by exact Hacc. apply IHr. exact Hacc.
   - simpl. rewrite <- !app_assoc. rewrite IHb by (intros x Hx; specialize (Hacc x Hx); lia).
     destruct (scope_at (map snd acc) b p) as [res|]; [reflexivity|].
     simpl. rewrite dne_pts. rewrite map_app, map_snd_tag.
